@@ -980,3 +980,95 @@ Section FileReport.
       exfalso. apply H. apply check_iff_malformed in X; [exact X|exact LNL].
   Qed.
 End FileReport.
+
+(* ================================================================ playing: the timing judgement *)
+(* An idealised Play: T is the true instant at which Play starts on the remaining items; every
+   step takes its stated time PLUS any non-negative overhead; consumers stamp as described in the
+   model (ready <= hand-over <= after; reached-condition <= recv; sat <= continues). *)
+Definition add_sent x (o : pobs) := mkobs (x :: o_sent o) (o_cond o) (o_act o) (o_echo o).
+Definition add_cond x (o : pobs) := mkobs (o_sent o) (x :: o_cond o) (o_act o) (o_echo o).
+Definition add_act x (o : pobs) := mkobs (o_sent o) (o_cond o) (x :: o_act o) (o_echo o).
+Definition add_echo x (o : pobs) := mkobs (o_sent o) (o_cond o) (o_act o) (x :: o_echo o).
+
+Inductive plays : Z -> list item -> pobs -> Prop :=
+| P_nil T : plays T [] (mkobs [] [] [] [])
+| P_comment T m r o : plays T r o -> plays T (IComment false m :: r) o
+| P_error T r o : plays T r o -> plays T (IError :: r) o
+| P_echo T T' m r o : (T <= T')%Z -> plays T' r o -> plays T (IComment true m :: r) (add_echo m o)
+| P_wait T T' d r o : (T + d <= T')%Z -> plays T' r o -> plays T (IWait d :: r) o
+| P_filter T T' a r o : (T <= T')%Z -> plays T' r o -> plays T (IFilter a :: r) (add_act a o)
+| P_send T m d p k Tm H ready after r o :
+    complete_cond p k Tm = false ->
+    (T + d <= H)%Z -> (ready <= H)%Z -> (H <= after)%Z ->
+    plays H r o -> plays T (ISend m d p k Tm :: r) (add_sent (m, ready, after) o)
+| P_send_cond T m d p k Tm C recv sat S H ready after r o :
+    complete_cond p k Tm = true ->
+    (T + d <= C)%Z -> (C <= recv)%Z -> (C <= S)%Z -> (sat <= S)%Z ->
+    (S <= H)%Z -> (ready <= H)%Z -> (H <= after)%Z ->
+    plays H r o ->
+    plays T (ISend m d p k Tm :: r) (add_cond (p, k, Tm, recv, sat) (add_sent (m, ready, after) o)).
+
+Lemma faction_same_refl a : faction_same a a = true.
+Proof. destruct a; cbn; try reflexivity; apply String.eqb_refl. Qed.
+
+(* no false alarm: whatever the overheads, a Play that keeps every stated delay passes *)
+Theorem play_check_accepts_correct_play T its o :
+  plays T its o -> forall tol L, (0 <= tol)%Z -> (L <= T)%Z -> play_check tol L its o = true.
+Proof.
+  induction 1 as [T|T m r o _ IH|T r o _ IH|T T' m r o Le _ IH|T T' d r o Le _ IH|T T' a r o Le _ IH
+                  |T m d p k Tm H ready after r o CC L1 L2 L3 _ IH
+                  |T m d p k Tm C recv sat S H ready after r o CC L1 L2 L3 L4 L5 L6 L7 _ IH];
+    intros tol L Ht HL; cbn [play_check].
+  - reflexivity.
+  - apply IH; assumption.
+  - apply IH; assumption.
+  - destruct o. cbn. rewrite String.eqb_refl. cbn [andb]. apply IH; [assumption|lia].
+  - apply IH; [assumption|lia].
+  - destruct o. cbn. rewrite faction_same_refl. cbn [andb]. apply IH; [assumption|lia].
+  - rewrite CC. unfold take_sent. cbn [add_sent o_sent o_cond o_act o_echo].
+    rewrite String.eqb_refl. cbn [andb].
+    destruct (Z.leb_spec (Z.max (L + d) ready - tol) after) as [_|C]; [|lia].
+    destruct o; apply IH; [assumption|lia].
+  - rewrite CC. cbn [add_cond add_sent o_sent o_cond o_act o_echo].
+    rewrite String.eqb_refl, !Z.eqb_refl. cbn [andb].
+    destruct (Z.leb_spec (L + d - tol) recv) as [_|Cx]; [|lia].
+    unfold take_sent. cbn [o_sent o_cond o_act o_echo]. rewrite String.eqb_refl. cbn [andb].
+    destruct (Z.leb_spec (Z.max (Z.max (L + d) sat) ready - tol) after) as [_|Cx]; [|lia].
+    destruct o; apply IH; [assumption|lia].
+Qed.
+
+(* and what passing means for a delayed send: its hand-over stamp is at least the stated delay
+   after the earliest finish of everything before it (less the tolerance) *)
+Theorem play_check_keeps_stated_delay tol L m d p k Tm r o :
+  complete_cond p k Tm = false ->
+  play_check tol L (ISend m d p k Tm :: r) o = true ->
+  exists ready after ss, o_sent o = (m, ready, after) :: ss /\ (L + d - tol <= after)%Z.
+Proof.
+  intros CC. cbn [play_check]. rewrite CC. unfold take_sent.
+  destruct (o_sent o) as [|[[m' ready] after] ss]; [discriminate|].
+  destruct (m' =? m) eqn:Em; [|discriminate]. apply String.eqb_eq in Em; subst m'. cbn [andb].
+  destruct (Z.leb_spec (Z.max (L + d) ready - tol) after) as [Le|_]; [|discriminate].
+  intros _. exists ready, after, ss. split; [reflexivity|lia].
+Qed.
+
+(* a conditional send: the checker got exactly the stated pattern, count and timeout, not before
+   the stated delay, and the message went out only after the checker said "satisfied" *)
+Theorem play_check_honours_condition tol L m d p k Tm r o :
+  complete_cond p k Tm = true ->
+  play_check tol L (ISend m d p k Tm :: r) o = true ->
+  exists recv sat cs ready after ss,
+    o_cond o = (p, k, Tm, recv, sat) :: cs /\ (L + d - tol <= recv)%Z /\
+    o_sent o = (m, ready, after) :: ss /\ (sat - tol <= after)%Z /\ (L + d - tol <= after)%Z.
+Proof.
+  intros CC. cbn [play_check]. rewrite CC.
+  destruct (o_cond o) as [|[[[[p' k'] T'] recv] sat] cs]; [discriminate|].
+  destruct (p' =? p) eqn:Ep; [|discriminate]. apply String.eqb_eq in Ep; subst p'.
+  destruct (Z.eqb_spec k' k) as [->|]; [|discriminate].
+  destruct (Z.eqb_spec T' Tm) as [->|]; [|discriminate]. cbn [andb].
+  destruct (Z.leb_spec (L + d - tol) recv) as [Lr|_]; [|discriminate].
+  unfold take_sent. cbn [o_sent].
+  destruct (o_sent o) as [|[[m' ready] after] ss]; [discriminate|].
+  destruct (m' =? m) eqn:Em; [|discriminate]. apply String.eqb_eq in Em; subst m'. cbn [andb].
+  destruct (Z.leb_spec (Z.max (Z.max (L + d) sat) ready - tol) after) as [Le|_]; [|discriminate].
+  intros _. exists recv, sat, cs, ready, after, ss. repeat split; try reflexivity; lia.
+Qed.
